@@ -15,7 +15,7 @@ LEVEL = 'exploration'
 JOBS = {'quick': 1, 'thorough': 16}
 REQUIRED_MONITORS = ('min_image_reference', 'symmetry', 'lattice_shift', 'inverse_flag', 'history_independence')
 REQUIRED_CLASSES = ('box:cubic', 'box:anisotropic', 'box:triclinic', 'arg:residue', 'arg:point',
-                    'placement:across-face', 'placement:far-outside', 'wrapped:yes', 'wrapped:no',
+                    'placement:across-face', 'placement:far-outside', 'placement:lattice-points', 'wrapped:yes', 'wrapped:no',
                     'session:same', 'session:rescale-in-place', 'session:new-values-in-place', 'session:other-object')
 RULE = ('pairs (residue, residue-or-point) x box; classes: box kind (cubic / anisotropic rectangular / triclinic with '
         'skew <= 0.4 L), placement (inside, across a face, on a face, many boxes away). Non-trivial: the minimum '
@@ -109,7 +109,7 @@ def make_residue(rng, centre, n):
 
 
 BOXES = ['cubic', 'anisotropic', 'triclinic']
-PLACES = ['inside', 'across-face', 'on-face', 'far-outside', 'same-point']
+PLACES = ['inside', 'across-face', 'on-face', 'far-outside', 'same-point', 'lattice-points']
 
 
 def gen_box(rng, cls):
@@ -144,6 +144,18 @@ def gen_points(rng, cls, box):
         fb = rng.uniform(0, 1, 3) + rng.integers(-100, 101, 3)
         if rng.random() < 0.5:
             fa = fa + rng.integers(-100, 101, 3)
+    elif cls == 'lattice-points':
+        # both points on (or within rounding noise of) points of the lattice spanned by the box vectors: the origin, a
+        # corner, a molecule centred at the origin whose centre is -3e-17 instead of 0 ...
+        def noise():
+            r = rng.random()
+            if r < 0.4:
+                return np.zeros(3)
+            return rng.choice([-1.0, 1.0], 3) * 10.0 ** rng.uniform(-18, -13, 3) * (rng.random(3) < 0.7)
+        fa = rng.integers(-3, 4, 3).astype(float) * (rng.random() < 0.6)
+        fb = rng.integers(-3, 4, 3).astype(float) * (rng.random() < 0.6)
+        scale = float(np.abs(box).max())
+        return fa @ box + noise() * scale, fb @ box + noise() * scale
     else:
         fb = fa.copy()
     return fa @ box, fb @ box
